@@ -53,6 +53,10 @@ package http1
 // C19 (stage events): the loop itself records only the four stage-start events, each once and in stage order; a
 // stage-finish event is recorded only by the callback pushed together with its start (popped when the stage ends), so
 // no event slot is ever written twice within one request.
+// c100 / c100Flushed (C02): the interim "100 Continue" response was written and flushed before the body of an Expect
+// request is read - always, not depending on how much of the body the last read happened to bring along.
+//@ ghost var c100 bool
+//@ ghost var c100Flushed bool
 // hjClr (C09): the hijack handler a request handler may have installed on the pooled context was taken off it again
 // (no reset clears that field: a handler left behind would hijack the connection of whichever request gets the
 // context next) - on every way out of the loop after the handler ran.
@@ -61,8 +65,8 @@ package http1
 //@ ghost var contDone bool
 
 //@ func Server.Serve(s, c, conn) err
-//@   props C19, C18, C01, C03, C04, C14, C09
-//@   requires phase == 0 && !rejecting && !closeSet && !notRunningSeen && !runningChecked && !wantClose && !headChecked && !mayCont && !contDone && !kaSet && !bsChecked && !relDone
+//@   props C19, C18, C01, C03, C04, C14, C09, C02
+//@   requires phase == 0 && !rejecting && !closeSet && !notRunningSeen && !runningChecked && !wantClose && !headChecked && !mayCont && !contDone && !kaSet && !bsChecked && !relDone && !c100 && !c100Flushed
 //@   ghostset after RequestHeader.IsHTTP11: is11 = result
 //@   ghostset after ResponseHeader.SetCanonical: kaSet = kaSet || sameSlice(arg2, bytestr.StrKeepAlive)
 //@   assert @C04 before writeResponse: !rejecting && !is11 && !closeSet ==> kaSet
@@ -83,6 +87,12 @@ package http1
 //@   assert @C19 before Record!#1: arg1 == stats.ReadBodyStart
 //@   assert @C19 before Record!#2: arg1 == stats.ServerHandleStart
 //@   assert @C19 before Record!#3: arg1 == stats.WriteStart
+//@   ghostset after WriteBinary: c100 = c100 || sameSlice(arg1, bytestr.StrResponseContinue)
+//@   ghostset after Flush: c100Flushed = c100
+//@   assert @C02 before ContinueReadBody!: c100Flushed
+//@   assert @C02 before ContinueReadBodyStream!: c100Flushed
+//@   ghostset after ResetWithoutConn: c100 = false
+//@   ghostset after ResetWithoutConn: c100Flushed = false
 //@   ghostset after Request.MayContinue: mayCont = result
 //@   ghostset after ContinueReadBody: contDone = true
 //@   ghostset after ContinueReadBodyStream: contDone = true
@@ -131,7 +141,7 @@ package http1
 //@   top-ensures traceOpen == 0
 //@   loop 0:
 //@     invariant traceOpen == 0 && evDepth == 0 && !traceStarted
-//@     invariant phase == 0 && !rejecting && !closeSet && !wantClose && !headChecked && !mayCont && !contDone && !kaSet && !bsChecked && !relDone
+//@     invariant phase == 0 && !rejecting && !closeSet && !wantClose && !headChecked && !mayCont && !contDone && !kaSet && !bsChecked && !relDone && !c100 && !c100Flushed
 //@     invariant @C18 !notRunningSeen && !runningChecked
 
 //@ func Server.Serve$1()
